@@ -68,6 +68,35 @@ Fixpoint installed (n : N) (ops : list cop) : list inst :=
 (* ---- replay (C10): the receive path as a function of a history of secured chunks ---- *)
 Record schunk := { sc_chan : N; sc_key : N; sc_chunk : chunk }.
 
-(* readChunk hands on exactly the chunks some instance verifies; nothing else is looked at *)
+Open Scope N_scope.
+(* checkSequenceNumber: the first chunk may carry any number; afterwards greater than the last accepted one, or the
+   roll-over of Part 6, 6.7.2.4 (last >= UInt32.MaxValue - 1024 and the new number below 1024) *)
+Definition seq_ok (last : option N) (n : N) : bool :=
+  match last with
+  | None => true
+  | Some l => (l <? n) || ((4294966271 <=? l) && (n <? 1024))
+  end.
+
+(* readChunk over a history: a chunk is handed on iff it verifies (first component) and its number passes the check;
+   only then the remembered number advances.  The verification result is per occurrence, so renewals and expiries between
+   the chunks are covered. *)
+Fixpoint accept_seq (last : option N) (h : list (bool * chunk)) : list chunk :=
+  match h with
+  | [] => []
+  | (v, c) :: r => if v && seq_ok last (ck_seq c) then c :: accept_seq (Some (ck_seq c)) r else accept_seq last r
+  end.
+
 Definition accepted (s : cstate) (h : list schunk) : list chunk :=
+  accept_seq None (map (fun c => (accepts s (sc_chan c) (sc_key c), sc_chunk c)) h).
+
+(* the same on a stream in which every chunk verifies (mode None, or a conforming peer) *)
+Definition seq_filter (cs : list chunk) : list chunk := accept_seq None (map (fun c => (true, c)) cs).
+
+(* s' may be accepted after s: larger, or the roll-over *)
+Definition seq_after (s s' : N) : Prop := s < s' \/ (4294966271 <= s /\ s' < 1024).
+Fixpoint increasing (l : list N) : Prop :=
+  match l with a :: ((b :: _) as r) => seq_after a b /\ increasing r | _ => True end.
+
+(* readChunk before the sequence check existed: exactly the chunks some instance verifies *)
+Definition accepted_prefix (s : cstate) (h : list schunk) : list chunk :=
   map sc_chunk (filter (fun c => accepts s (sc_chan c) (sc_key c)) h).
